@@ -184,6 +184,10 @@ class VerifBackend(ParallelBackendBase):
 
     def abort_everything(self, ensure_ready=True):
         self.aborts += 1
+        self.last_ensure_ready = ensure_ready
+        hook, self.abort_hook = getattr(self, "abort_hook", None), None
+        if hook:
+            hook()
 
 
 class Driver:
@@ -381,6 +385,8 @@ class Driver:
                                 pre_dispatch=pre, timeout=timeout,
                                 return_as="generator" if mode == "ordered" else "generator_unordered")
             self.trk_of_batch = []
+            if self.case.get("managed"):
+                self.par.__enter__()
         else:
             # same object, new settings: n_jobs is fixed by the backend, pre_dispatch/timeout are attributes
             self.par.pre_dispatch = pre
@@ -490,13 +496,60 @@ class Driver:
         self._record(ev)
 
     def ev_close(self, ev):
+        # optionally a worker finishes a batch while _abort() is inside backend.abort_everything()
+        self._sync_new_trackers()
+        infl = [self.trk_of_batch[i] for i, b in enumerate(self.backend.batches) if not b["started"]]
+        nested = None
+        if infl and (len(ev) > 1 or (not self.replay and self.rng.random() < self.case.get("p_abort_race", 0.5))):
+            tid = ev[1] if len(ev) > 1 else self.rng.choice(infl)
+            if tid in infl:
+                nested = {"tid": tid}
+                bi = self.trk_of_batch.index(tid)
+                b = self.backend.batches[bi]
+
+                def hook():
+                    b["started"] = True
+                    st = {"done": False}
+
+                    def run():
+                        self.backend.tl.is_cb = True
+                        self.backend.tl.b = 1
+                        try:
+                            out = b["func"]()
+                        except BaseException as e:  # noqa
+                            out = e
+                        st["outcome"] = out.args[0] if isinstance(out, (TaskFail, ExtFail)) else (
+                            None if not isinstance(out, BaseException) else -1)
+                        try:
+                            b["cb"](out)
+                        except BaseException as e:  # noqa
+                            self.anomalies.append("callback raised %r" % (e,))
+                        st["done"] = True
+                        with GATE.cv:
+                            GATE.cv.notify_all()
+                    t = threading.Thread(target=run, daemon=True)
+                    t.start()
+                    r = GATE.wait_parked_or(t.ident, lambda: st["done"], WAIT_STEP)
+                    nested["parked"] = (r == "parked")
+                    nested["outcome"] = st.get("outcome")
+                    nested["thread"] = (t, st)
+                self.backend.abort_hook = hook
         self._send((ev[0],))
         end = time.time() + WAIT_STEP
         while time.time() < end and not self._consumer_idle():
             time.sleep(0.002)
         if not self._consumer_idle():
             self.anomalies.append("close did not return")
-        self._record(ev)
+        if nested and "thread" in nested:
+            self._record([ev[0], nested["tid"]])
+            self.cb_threads[nested["tid"]] = nested["thread"]
+            if nested["parked"]:
+                self.mid.append(nested["tid"])
+            # the completion that raced with the abort, as a separate event of the trace
+            self._record(["cb", nested["tid"], "run", nested.get("outcome")])
+        else:
+            self.backend.abort_hook = None
+            self._record([ev[0]])
 
     def ev_timeout(self, ev):
         # the consumer is blocked in a pull; wait for the TimeoutError (timeout is 0.3 s)
@@ -517,7 +570,9 @@ class Driver:
         if at_cbs:
             evs.append("dispatch")
         infl = [self.trk_of_batch[i] for i, b in enumerate(self.backend.batches) if not b["started"]] if self.backend else []
-        if infl and not (self.case.get("no_cb_first_call") and self.call_no == 1 and not self.gen_done):
+        stall = self.case.get("stall_after")
+        stalled = stall is not None and self.call_no == 1 and len(self.cb_started) >= stall
+        if infl and not stalled and not (self.case.get("no_cb_first_call") and self.call_no == 1):
             evs.append("cb")
         if self.mid:
             evs.append("cbfin")
@@ -599,6 +654,7 @@ class Driver:
                     self.ev_pull(ev)
                 elif k in ("close", "drop"):
                     self.ev_close(ev)
+                    continue
                 elif k == "timeout":
                     self.ev_timeout(ev)
             except Exception as e:  # noqa
